@@ -494,6 +494,8 @@ def r16_4(ctx, f, rec, n, extras, schema, key_colon):
             tv = [norm(e) for e in (loop.target.elts if isinstance(loop.target, ast.Tuple) else [loop.target])]
             vnames = {f"{base}[{tv[0]}]", f"{norm(loop.iter.func.value) if isinstance(loop.iter, ast.Call) and isinstance(loop.iter.func, ast.Attribute) else norm(loop.iter)}[{tv[0]}]"} | ({tv[1]} if len(tv) > 1 else set())
             for flt in filters:
+                while isinstance(flt, ast.UnaryOp) and isinstance(flt.op, ast.Not) and isinstance(flt.operand, ast.UnaryOp) and isinstance(flt.operand.op, ast.Not):
+                    flt = flt.operand.operand
                 t = norm(flt)
                 if t in (f'{tv[0]} != "ds:Z:"', f"{tv[0]} != 'ds:Z:'", f"not {tv[0]}.startswith('ds:Z:')"):
                     continue
